@@ -640,6 +640,10 @@ async def _timer(
         if not state.done:
             await aiotime.sleep(state.delays, wakeup=stopper.async_event)
 
+        # For permanent errors (incl. the exhausted retries/timeout), the timer stops forever.
+        elif state[handler.id].failure:
+            break
+
         # For sharp timers, calculate how much time is left to fit the interval grid:
         #       |-----|-----|-----|-----|-----|-----|---> (interval=5, sharp=True)
         #       [slow_handler]....[slow_handler]....[slow...
